@@ -233,3 +233,11 @@ func must(err error) {
 }
 
 var _ = fmt.Sprintf
+
+// SpecialStrings are byte strings with a meaning somewhere in the protocol stack (domain-separation tags, labels,
+// RFC 8032 dom2 prefix, HPKE labels): as message, context, challenge or origin content they are ordinary bytes
+// and must be treated as such.
+var SpecialStrings = []string{
+	"SigEd25519 no Ed25519 collisions", "SigEd25519 no Ed25519 collisions\x00\x00", "SigEd448", "ECDSA Key Blind", "ClientBlind", "IssuerBlind", "IssuerOriginAlias",
+	"TokenRequest", "TokenResponse", "key", "nonce", "HPKE-v1", "OPRFV1-", "HashToGroup-OPRFV1-\x01-P384-SHA384", "Finalize", "DeriveKeyPair", "Seed-", "PrivateToken", "\x00", "\x00\x03ClientBlind",
+}
